@@ -124,7 +124,7 @@ def defined_names(code: str):
 
 def embed_py(rng, code: str, k: int, renamed: bool):
     """returns (text, copies) where copies = list of (first line of the copy in the file, indent)"""
-    ctx = rng.choice(["module", "function", "method", "if", "try", "with", "nested", "for", "for_matching", "while"])
+    ctx = rng.choice(["module", "module", "module", "function", "method", "if", "try", "with", "nested", "for", "for_matching", "while"])
     head, indent = {"for": (["for outer_item in OUTER_ITEMS:"], "    "), "while": (["while keep_running():"], "    "),
                     "for_matching": (["for outer_item in OUTER_ITEMS:", "    if not outer_item:", "        continue"], "    "),
                     "module": ([], ""), "function": (["def outer_scope():"], "    "), "method": (["class OuterScope:", "    def run(self):"], "        "),
@@ -202,7 +202,7 @@ def run(tier: str, seed: int, st: core.ProofStatus) -> core.Result:
                 "findings must equal those of the Lean walk model built from the stand-alone findings; non-trivial = an embedding whose example has findings")
     rng = core.sub_rng(seed, PROP, tier)
     examples = selected_examples()
-    n_embed = 8 if tier == "quick" else 40
+    n_embed = 12 if tier == "quick" else 40
     jobs = []
     for i, e in enumerate(examples):
         embeds = []
